@@ -1081,6 +1081,12 @@ fn damage(rng: &mut Rng, r: &mut Resp, what: &str, world: &World, target_type: u
             r.authority.retain(|x| !(x.0 == o && (matches!(x.1, T_NSEC | T_NSEC3) || (x.1 == T_RRSIG && matches!(u16::from_be_bytes([x.3[0], x.3[1]]), T_NSEC | T_NSEC3)))));
             true
         }
+        "orphan-proof-signatures" => {
+            // the denial records go missing, their signatures stay behind: RRSIGs that cover nothing in the message
+            let before = r.authority.len();
+            r.authority.retain(|x| !matches!(x.1, T_NSEC | T_NSEC3));
+            before != r.authority.len()
+        }
         "drop-all-proofs" => {
             let before = r.authority.len();
             r.authority.retain(|x| !(matches!(x.1, T_NSEC | T_NSEC3) || (x.1 == T_RRSIG && matches!(u16::from_be_bytes([x.3[0], x.3[1]]), T_NSEC | T_NSEC3))));
@@ -1410,7 +1416,7 @@ fn one_world(c: &mut Ctx, rt: &tokio::runtime::Runtime, fam: &str, idx: u64) {
         // ---- damage to the answer under validation
         ctx::step("damaged answer");
         let target = if resp.answer.iter().any(|x| x.1 == q.1) { q.1 } else if resp.answer.iter().any(|x| x.1 == T_CNAME) { T_CNAME } else if resp.authority.iter().any(|x| x.1 == T_NSEC) { T_NSEC } else if resp.authority.iter().any(|x| x.1 == T_NSEC3) { T_NSEC3 } else { T_SOA };
-        let msg_faults: &[&str] = &["drop-rrsigs", "corrupt-signature", "alter-rdata", "wrong-signer", "expired", "not-yet-valid", "drop-proof", "drop-all-proofs", "drop-soa", "unsigned-extra-rrset", "pretend-unsigned", "signer-is-an-insecure-zone"];
+        let msg_faults: &[&str] = &["drop-rrsigs", "corrupt-signature", "alter-rdata", "wrong-signer", "expired", "not-yet-valid", "drop-proof", "drop-all-proofs", "orphan-proof-signatures", "drop-soa", "unsigned-extra-rrset", "pretend-unsigned", "signer-is-an-insecure-zone"];
         for f in msg_faults {
             if !rng.chance(1, 2) && c.tier != ctx::Tier::Thorough {
                 continue;
@@ -1424,7 +1430,7 @@ fn one_world(c: &mut Ctx, rt: &tokio::runtime::Runtime, fam: &str, idx: u64) {
                 continue;
             }
             // dropping a proof of a positive non-wildcard answer changes nothing that matters
-            if matches!(*f, "drop-proof" | "drop-all-proofs") && !matches!(resp.kind, "nodata" | "nodata-ent" | "nodata-wildcard" | "nxdomain" | "wildcard" | "cname-nodata" | "cname-nxdomain" | "cname-wildcard") && !(resp.wild && *f == "drop-all-proofs") {
+            if matches!(*f, "drop-proof" | "drop-all-proofs" | "orphan-proof-signatures") && !matches!(resp.kind, "nodata" | "nodata-ent" | "nodata-wildcard" | "nxdomain" | "wildcard" | "cname-nodata" | "cname-nxdomain" | "cname-wildcard") && !(resp.wild && matches!(*f, "drop-all-proofs" | "orphan-proof-signatures")) {
                 continue;
             }
             if *f == "drop-proof" && (matches!(resp.kind, "cname-nodata" | "cname-nxdomain" | "cname-wildcard") || resp.wild && resp.kind == "cname") {
